@@ -40,6 +40,11 @@ impl<E: OnEvictCallback + Clone, S: BuildHasher + Clone> Subject for LruSubj<E, 
             8 => vec![c.len() as i128],
             9 => vec![c.cap() as i128],
             10 => vec![c.is_empty() as i128],
+            // (liar slice) cloning a key merges neighbouring keys / is faithful again
+            95 => {
+                crate::types::CLONE_MERGE.store(op[1] != 0, std::sync::atomic::Ordering::Relaxed);
+                vec![]
+            }
             // (liar slice) from now on every key hashes differently
             96 => {
                 crate::types::SALT.store(op[1] as u64, std::sync::atomic::Ordering::Relaxed);
@@ -153,8 +158,23 @@ impl<E: OnEvictCallback + Clone, S: BuildHasher + Clone> Subject for LruSubj<E, 
             25 => {
                 let c2 = c.clone();
                 // the clone answers every accessor like the original at this moment
-                if (c2.cap(), c2.len(), c2.is_empty()) != (c.cap(), c.len(), c.is_empty()) {
+                // (with a Clone of the key that merges keys - lruliar slice - the clone legitimately holds fewer entries)
+                let merging = crate::types::CLONE_MERGE.load(std::sync::atomic::Ordering::Relaxed);
+                if !merging && (c2.cap(), c2.len(), c2.is_empty()) != (c.cap(), c.len(), c.is_empty()) {
                     return vec![-7];
+                }
+                // Clone::clone_from into a cache that has moved on: afterwards it is the source again
+                if !merging {
+                    let mut d = c.clone();
+                    if let Some(n) = d.cap().checked_add(1) {
+                        d.resize(n);
+                    }
+                    d.clone_from(c);
+                    let a: Vec<(u64, u64)> = c.iter().map(|(k, v)| (k.id, v.v)).collect();
+                    let b: Vec<(u64, u64)> = d.iter().map(|(k, v)| (k.id, v.v)).collect();
+                    if (d.cap(), d.len()) != (c.cap(), c.len()) || a != b {
+                        return vec![-7];
+                    }
                 }
                 // the original is dropped here: exercise independence of the clone
                 let old = std::mem::replace(c, c2);
